@@ -1,2 +1,50 @@
-(* props/C06.v — placeholder until the totality theorems are proved; keeps the build target. *)
-From Prophy Require Import Bytes Schema Layout Wire PyDecode.
+(* props/C06.v — Python decode is total: any bytes decode or raise ProphyError, nothing else. *)
+From Coq Require Import ZArith List Bool Lia.
+From Prophy Require Import Bytes Schema Layout Wire Src PyStatics PyEncode PyDecode
+  Arith SpecAlign Views SpecLen PyStaticsFacts PyEncodeFacts PyDecodeFacts.
+Import ListNotations.
+Local Open Scope Z_scope.
+
+(* For every legal message type, both byte orders and EVERY byte string, the model of
+   message.decode either returns (with a non-negative consumed length) or raises ProphyError.
+   The other outcomes of the model — StructError, Stuck (an impossible object state) and
+   OutOfFuel (the greedy `while` loop running longer than len(data)+1 iterations, i.e.
+   non-termination) — are unreachable. *)
+Theorem C06_decode_total :
+  forall (e : endian) (fs : list field) (data : bytes),
+    legal (TStruct fs) = true ->
+    match py_decode e (TStruct fs) data with
+    | Ok (_, n) => 0 <= n
+    | Err ProphyError => True
+    | Err _ => False
+    end.
+Proof. exact py_decode_total. Qed.
+Print Assumptions C06_decode_total.
+
+(* the same for every nested composite at every position, with the progress fact that makes
+   the greedy loop terminate: a composite that is not unlimited consumes at least one byte *)
+Theorem C06_progress :
+  forall e data fuel t pos terminal,
+    Z.of_nat fuel > len data -> legal t = true -> is_comp t = true -> 0 <= pos ->
+    match py_dec e data fuel t pos terminal with
+    | Ok (_, n) => (if stiff_eqb (stiffness t) Unlimited then 0 else 1) <= n
+    | Err ProphyError => True
+    | Err _ => False
+    end.
+Proof.
+  intros e data fuel t pos terminal Hf Hl Hc Hp.
+  pose proof (py_dec_total e data fuel Hf t Hl Hc pos terminal Hp) as H.
+  destruct (py_dec e data fuel t pos terminal) as [[v n]|[]]; cbn [good] in H; try contradiction; try exact I. exact H.
+Qed.
+Print Assumptions C06_progress.
+
+(* Not proved here (stated for the record, decided by the correspondence/oracle run only):
+   C06_fixpoint : py_decode e t data = Ok (v, n) ->
+     exists b, py_enc e t v = Ok b /\ (exists v', py_decode e t b = Ok (v', len b) /\ py_enc e t v' = Ok b
+                                       /\ (greedy_tail_aligned t v = true -> v' = v)). *)
+
+Example C06_example_truncated :
+  py_decode LE (TStruct [(FPlain, TScalar U32); (FBound 0%nat, TScalar U16)]) [2; 0; 0; 0; 1; 0; 2] = Err ProphyError
+  /\ py_decode LE (TStruct [(FPlain, TScalar U32); (FBound 0%nat, TScalar U16)]) [2; 0; 0; 0; 1; 0; 2; 0]
+     = Ok (VStruct [VInt 2; VList [VInt 1; VInt 2]], 8).
+Proof. vm_compute. split; reflexivity. Qed.
